@@ -151,7 +151,7 @@ impl SimReader {
 
 impl BufRead for SimReader {
     fn fill_buf(&mut self) -> io::Result<&[u8]> {
-        crate::job::sched_point();
+        crate::job::io_point("input.read");
         let callno = {
             let mut l = self.log.borrow_mut();
             l.calls += 1;
@@ -243,7 +243,7 @@ impl SimWriter {
 
 impl Write for SimWriter {
     fn write(&mut self, buf: &[u8]) -> io::Result<usize> {
-        crate::job::sched_point();
+        crate::job::io_point("output.write");
         let callno = self.log.calls;
         self.log.calls += 1;
         if buf.is_empty() {
@@ -276,7 +276,7 @@ impl Write for SimWriter {
         Ok(n)
     }
     fn flush(&mut self) -> io::Result<()> {
-        crate::job::sched_point();
+        crate::job::io_point("output.write");
         self.flushes += 1;
         Ok(())
     }
